@@ -58,6 +58,9 @@ def build_sandbox(base, variant):
     L('../k1x/g', os.path.join(k1, 'flnk_px'))
     L('../../outside/odir', os.path.join(k1, 'dlnk_out'))        # directory links inside a key directory: deleting the key
     L('../k2', os.path.join(k1, 'dlnk_sib'))                     # removes the links, never what they point to
+    # read-only canaries: an operation that follows a link must not even change their permission bits
+    os.chmod(os.path.join(outside, 'canary'), 0o444)
+    os.chmod(os.path.join(outside, 'odir'), 0o555)
     if variant == 1:      # the storage directory itself is reached through a symlink
         os.rename(store, os.path.join(base, 'realstore'))
         os.symlink('realstore', store)
@@ -74,10 +77,10 @@ def snapshot(base):
             if os.path.islink(p):
                 snap[rel] = ('l', os.readlink(p))
             elif os.path.isdir(p):
-                snap[rel] = ('d',)
+                snap[rel] = ('d', st.st_mode & 0o7777)
             else:
                 with open(p, 'rb') as f:
-                    snap[rel] = ('f', f.read(), st.st_mtime_ns)
+                    snap[rel] = ('f', f.read(), st.st_mtime_ns, st.st_mode & 0o7777)
     return snap
 
 
